@@ -106,7 +106,10 @@ func VerifC04Nested() {
 	neg, fin := verifHandlerNames(s.names)
 	allH := append(append([]string{}, neg...), fin...)
 	s.nestIn = allH[vInt(0, len(allH)-1)]
-	nk := vInt(0, 2)
+	nk := vParam("nk", -1)
+	if nk < 0 {
+		nk = vInt(0, 2)
+	}
 	ncalled := verifSublist(s.names)
 	vAssume(len(ncalled) > 0)
 	nested := false
